@@ -26,6 +26,10 @@ Core == {
   [c |-> "constu", v |-> B8(128)], [c |-> "constu", v |-> <<0, 0, 0, 0, 1, 0, 0, 0>>], [c |-> "constu", v |-> M1],
   [c |-> "consts", v |-> B8(0)], [c |-> "consts", v |-> M1], [c |-> "consts", v |-> B8(63)], [c |-> "consts", v |-> B8(64)],
   [c |-> "consts", v |-> FromInt(-64, 8)], [c |-> "consts", v |-> FromInt(-65, 8)], [c |-> "consts", v |-> <<0, 0, 0, 0, 0, 0, 0, 128>>],
+  [c |-> "consts", v |-> FromInt(-8192, 8)], [c |-> "consts", v |-> FromInt(-8193, 8)], [c |-> "consts", v |-> FromInt(8191, 8)],
+  [c |-> "consts", v |-> FromInt(8192, 8)], [c |-> "consts", v |-> FromInt(-1048576, 8)], [c |-> "consts", v |-> FromInt(1048575, 8)],
+  [c |-> "fbreg", off |-> FromInt(-8192, 8)], [c |-> "breg", reg |-> 3, off |-> FromInt(-1048576, 8)],
+  [c |-> "constu", v |-> B8(16383)], [c |-> "constu", v |-> B8(16384)], [c |-> "plus_uconst", v |-> B8(2097152)],
   [c |-> "fbreg", off |-> B8(0)], [c |-> "fbreg", off |-> M1], [c |-> "fbreg", off |-> B8(64)],
   [c |-> "breg", reg |-> 0, off |-> B8(0)], [c |-> "breg", reg |-> 31, off |-> M1], [c |-> "breg", reg |-> 32, off |-> B8(1)],
   [c |-> "breg", reg |-> 65535, off |-> B8(64)],
